@@ -57,7 +57,7 @@ Qed.
 
 (* the compiled helper and the pure-Python helper agree on ordered zero-offset datetime pairs, every year >= 1 *)
 Lemma rs_eq_py a b : dt_pair a b -> 1 <= p_year a -> p_wall a < p_wall b ->
-  py_precise_diff a b = Ok (rs_precise_diff a b true).
+  py_precise_diff a b = Ok (rs_precise_diff a b).
 Proof.
   intros P Hy Hlt. pose proof (py_pd_spec a b P Hlt) as S. pose proof (rs_pd_spec a b P Hy Hlt) as [R Rt].
   destruct (py_precise_diff a b) as [r|]; [|contradiction]. destruct S as [S St].
@@ -70,7 +70,7 @@ Proof.
   rewrite !rs_day_number_eq by lia. reflexivity.
 Qed.
 
-Lemma rs_pd_ranges a b : dt_pair a b -> 1 <= p_year a -> p_wall a < p_wall b -> in_ranges (rs_precise_diff a b true).
+Lemma rs_pd_ranges a b : dt_pair a b -> 1 <= p_year a -> p_wall a < p_wall b -> in_ranges (rs_precise_diff a b).
 Proof. intros P Hy Hlt. apply (spec_ranges a b); [apply P|apply P|assumption|]. apply rs_pd_spec; assumption. Qed.
 
 Lemma in_months_of_components d e : iv_in_months (iv_components d e) = 12 * pd_years d + pd_months d.
@@ -94,10 +94,10 @@ Proof.
     exists r. split; [reflexivity|]. apply (spec_ranges a b); [apply P|apply P|lia|tauto].
 Qed.
 
-Lemma rs_eq_py_date a b e : date_pair a b -> 1 <= p_year a -> p_wall a < p_wall b ->
-  py_precise_diff a b = Ok (rs_precise_diff a b e).
+Lemma rs_eq_py_date a b : date_pair a b -> 1 <= p_year a -> p_wall a < p_wall b ->
+  py_precise_diff a b = Ok (rs_precise_diff a b).
 Proof.
-  intros P Hy Hlt. pose proof (py_pd_spec_date a b P Hlt) as S. pose proof (rs_pd_spec_date a b e P Hy Hlt) as [R Rt].
+  intros P Hy Hlt. pose proof (py_pd_spec_date a b P Hlt) as S. pose proof (rs_pd_spec_date a b P Hy Hlt) as [R Rt].
   destruct (py_precise_diff a b) as [r|]; [|contradiction]. destruct S as [S St].
   f_equal. apply (spec_unique a b); [assumption|assumption|].
   rewrite St, Rt. destruct P as ((Va & Ta & _) & (Vb & Tb & _) & _).
@@ -148,30 +148,30 @@ Proof. induction l as [|x l IH]; [reflexivity|]. cbn [lex_gtb]. rewrite Z.gtb_lt
 Lemma rs_core_same i : rs_core i i 1 0 = mkPD 0 0 0 0 0 0 0 0.
 Proof. unfold rs_core. rewrite !Z.sub_diag. change (0 <? 0) with false. cbv beta iota zeta. reflexivity. Qed.
 
-Lemma rs_pd_equal a b e : op_pair a b -> (p_is_dt a = true -> e = true) -> p_wall a = p_wall b -> rs_precise_diff a b e = mkPD 0 0 0 0 0 0 0 0.
+Lemma rs_pd_equal a b : op_pair a b -> p_wall a = p_wall b -> rs_precise_diff a b = mkPD 0 0 0 0 0 0 0 0.
 Proof.
-  intros P He E. pose proof (op_pair_wf a b P) as (Wa & Wb & _).
+  intros P E. pose proof (op_pair_wf a b P) as (Wa & Wb & _).
   pose proof (wall_eq_fields a b Wa Wb E) as (E1 & E2 & E3 & E4 & E5 & E6 & E7).
   unfold rs_precise_diff.
   destruct P as [(_ & _ & Da & Db & _) | (_ & _ & Da & Db & _)].
-  - rewrite (He Da). rewrite Db, Da. cbn [andb]. destruct Wa as (_ & Ta & Oa). destruct Wb as (_ & Tb & Ob).
+  - rewrite Db, Da. destruct Wa as (_ & Ta & Oa). destruct Wb as (_ & Tb & Ob).
     rewrite (rs_info_plain a) by assumption. rewrite (rs_info_plain b) by assumption.
     rewrite <- E1, <- E2, <- E3, <- E4, <- E5, <- E6, <- E7. rewrite Z.sub_diag.
     unfold rs_gtb. rewrite lex_gtb_refl. apply rs_core_same.
-  - rewrite Db, Da. cbn [andb]. unfold rs_info.
+  - rewrite Db, Da. unfold rs_info.
     rewrite <- E1, <- E2, <- E3. rewrite Z.sub_diag.
     unfold rs_gtb. rewrite lex_gtb_refl. apply rs_core_same.
 Qed.
 
 Lemma rs_pd_rebuild a b : op_pair a b -> 1 <= p_year a -> p_year b <= 9999 -> p_wall a <= p_wall b ->
-  in_ranges (rs_precise_diff a b true) /\ rebuilds a b (rs_precise_diff a b true).
+  in_ranges (rs_precise_diff a b) /\ rebuilds a b (rs_precise_diff a b).
 Proof.
   intros P Hya Hyb Hle. pose proof (op_pair_wf a b P) as (Wa & Wb & K).
   destruct (Z.eq_dec (p_wall a) (p_wall b)) as [E|N].
-  - rewrite (rs_pd_equal a b true P (fun _ => eq_refl) E). split; [unfold in_ranges; cbn; lia|].
+  - rewrite (rs_pd_equal a b P E). split; [unfold in_ranges; cbn; lia|].
     apply zero_rebuilds; try assumption. pose proof (wall_eq_fields a b Wa Wb E) as (E1 & _). lia.
   - assert (Hlt : p_wall a < p_wall b) by lia.
-    assert (S : pd_spec a b (rs_precise_diff a b true)).
+    assert (S : pd_spec a b (rs_precise_diff a b)).
     { destruct P as [P|P]; [apply rs_pd_spec | apply rs_pd_spec_date]; assumption. }
     split; [apply (spec_ranges a b); assumption|]. apply spec_rebuilds; assumption.
 Qed.
@@ -195,7 +195,7 @@ Proof.
 Qed.
 
 Lemma rs_pd_rebuild_same a b : op_pair a b -> same_tzinfo a b -> 1 <= p_year a -> p_year b <= 9999 -> p_wall a <= p_wall b ->
-  let r := rs_precise_diff a b true in
+  let r := rs_precise_diff a b in
   pd_add_duration a (pd_years r) (pd_months r) 0 (pd_days r) (pd_hours r) (pd_minutes r) (pd_seconds r) (pd_microseconds r) = Ok b.
 Proof.
   intros P T Hya Hyb Hle. destruct (rs_pd_rebuild a b P Hya Hyb Hle) as (_ & Hb).
@@ -216,14 +216,14 @@ Proof.
 Qed.
 
 Lemma rs_iv_rebuild a b : op_pair a b -> 1 <= p_year a -> p_year b <= 9999 -> p_wall a <= p_wall b ->
-  dt_add_ivc a (iv_components (rs_precise_diff a b true) (iv_elapsed a b)) = Ok (p_retz a b).
+  dt_add_ivc a (iv_components (rs_precise_diff a b) (iv_elapsed a b)) = Ok (p_retz a b).
 Proof.
   intros P Hya Hyb Hle. pose proof (op_pair_wf a b P) as (Wa & Wb & K).
   destruct (Z.eq_dec (p_wall a) (p_wall b)) as [E|N].
-  - rewrite (rs_pd_equal a b true P (fun _ => eq_refl) E).
+  - rewrite (rs_pd_equal a b P E).
     apply zero_iv_rebuilds; try assumption. pose proof (wall_eq_fields a b Wa Wb E) as (E1 & _). lia.
   - assert (Hlt : p_wall a < p_wall b) by lia.
-    assert (S : pd_spec a b (rs_precise_diff a b true)).
+    assert (S : pd_spec a b (rs_precise_diff a b)).
     { destruct P as [P|P]; [apply rs_pd_spec | apply rs_pd_spec_date]; assumption. }
     apply spec_iv_rebuilds; assumption.
 Qed.
@@ -242,23 +242,40 @@ Proof. intros V1 V2. unfold dt_pair, wf_op, wf_time, naive_dt; cbn. repeat split
    2021-01-30 -> 2021-02-27 is "28 days" (was "1 month", start + 1 month = 2021-02-28) — both backends *)
 Example former_witnesses_rebuild :
   py_precise_diff (naive_dt 2021 5 2 0 0 0 0) (naive_dt 2021 6 1 0 0 0 0) = Ok (mkPD 0 0 30 0 0 0 0 30) /\
-  rs_precise_diff (naive_dt 2021 5 2 0 0 0 0) (naive_dt 2021 6 1 0 0 0 0) true = mkPD 0 0 30 0 0 0 0 30 /\
+  rs_precise_diff (naive_dt 2021 5 2 0 0 0 0) (naive_dt 2021 6 1 0 0 0 0) = mkPD 0 0 30 0 0 0 0 30 /\
   rebuilds (naive_dt 2021 5 2 0 0 0 0) (naive_dt 2021 6 1 0 0 0 0) (mkPD 0 0 30 0 0 0 0 30) /\
   py_precise_diff (naive_dt 2021 1 30 0 0 0 0) (naive_dt 2021 2 27 0 0 0 0) = Ok (mkPD 0 0 28 0 0 0 0 28) /\
-  rs_precise_diff (naive_dt 2021 1 30 0 0 0 0) (naive_dt 2021 2 27 0 0 0 0) true = mkPD 0 0 28 0 0 0 0 28 /\
+  rs_precise_diff (naive_dt 2021 1 30 0 0 0 0) (naive_dt 2021 2 27 0 0 0 0) = mkPD 0 0 28 0 0 0 0 28 /\
   rebuilds (naive_dt 2021 1 30 0 0 0 0) (naive_dt 2021 2 27 0 0 0 0) (mkPD 0 0 28 0 0 0 0 28).
 Proof. repeat split; vm_compute; reflexivity. Qed.
 
 (* a genuine clamp is still "1 month": 2021-01-31 -> 2021-02-28, and start + 1 month = 2021-02-28 *)
 Example rebuild_genuine_clamp :
   py_precise_diff (naive_dt 2021 1 31 0 0 0 0) (naive_dt 2021 2 28 0 0 0 0) = Ok (mkPD 0 1 0 0 0 0 0 28) /\
-  rs_precise_diff (naive_dt 2021 1 31 0 0 0 0) (naive_dt 2021 2 28 0 0 0 0) true = mkPD 0 1 0 0 0 0 0 28 /\
+  rs_precise_diff (naive_dt 2021 1 31 0 0 0 0) (naive_dt 2021 2 28 0 0 0 0) = mkPD 0 1 0 0 0 0 0 28 /\
   rebuilds (naive_dt 2021 1 31 0 0 0 0) (naive_dt 2021 2 28 0 0 0 0) (mkPD 0 1 0 0 0 0 0 28).
 Proof. repeat split; vm_compute; reflexivity. Qed.
 
+(* the former witness of finding rs-second-operand-subclass, now an ordinary case: two pendulum.DateTime instances in UTC (named
+   zone, one tzinfo object) passed directly, 2021-01-01T10:00 -> 2021-01-01T12:30.  The compiled helper used to treat the second
+   operand as a plain date (hours = -10); it now reads its time of day like the first operand's: 2 h 30 min, both backends, and
+   the components rebuild the end.  (The model has no "exact type" input any more: p_is_dt is is_type_of for both operands.) *)
+Definition utc_named_dt (y m d hh mm ss us : Z) : pdt := mkpdt y m d hh mm ss us 0 true 1 1 true.
+
+Example former_subclass_witness :
+  dt_pair (utc_named_dt 2021 1 1 10 0 0 0) (utc_named_dt 2021 1 1 12 30 0 0) /\
+  py_precise_diff (utc_named_dt 2021 1 1 10 0 0 0) (utc_named_dt 2021 1 1 12 30 0 0) = Ok (mkPD 0 0 0 2 30 0 0 0) /\
+  rs_precise_diff (utc_named_dt 2021 1 1 10 0 0 0) (utc_named_dt 2021 1 1 12 30 0 0) = mkPD 0 0 0 2 30 0 0 0 /\
+  rs_precise_diff (utc_named_dt 2021 1 1 12 30 0 0) (utc_named_dt 2021 1 1 10 0 0 0) = mkPD 0 0 0 (-2) (-30) 0 0 0 /\
+  rebuilds (utc_named_dt 2021 1 1 10 0 0 0) (utc_named_dt 2021 1 1 12 30 0 0) (mkPD 0 0 0 2 30 0 0 0).
+Proof.
+  split; [unfold dt_pair, wf_op, wf_time, utc_named_dt; cbn; repeat split; auto; lia|].
+  repeat split; vm_compute; reflexivity.
+Qed.
+
 (* cross-zone: 2021-03-01T00:30+01:00 vs 2021-04-01T00:00Z — Python 1 month 3 days 30 min, Rust 1 month 0 days 30 min *)
 Lemma rs_cross_zone_refuted : exists a b,
-  py_precise_diff a b = Ok (mkPD 0 1 3 0 30 0 0 31) /\ rs_precise_diff a b true = mkPD 0 1 0 0 30 0 0 31.
+  py_precise_diff a b = Ok (mkPD 0 1 3 0 30 0 0 31) /\ rs_precise_diff a b = mkPD 0 1 0 0 30 0 0 31.
 Proof.
   exists (aware_dt 2021 3 1 0 30 0 0 3600 2), (aware_dt 2021 4 1 0 0 0 0 0 1). split; vm_compute; reflexivity.
 Qed.
